@@ -96,6 +96,7 @@ structure Conn where
   minor : Nat := 8
   caps : Caps := {}
   hist : History := []
+  cur : List Nat := []             -- the last SetEncodings list
   bpp : Nat := 4
   depth : Nat := 32
   rmax : Nat := 255
@@ -118,7 +119,7 @@ def Conn.tight24 (c : Conn) : Bool := c.depth == 24 && c.rmax == 255 && c.gmax =
 
 def Conn.pctx (c : Conn) : PCtx := ⟨c.bpp, c.tight24, c.caps.lastRect⟩
 
-def Conn.octx (c : Conn) : OCtx := ⟨c.hist, c.annW, c.annH, c.usedSetScale, c.usedXvp⟩
+def Conn.octx (c : Conn) : OCtx := ⟨c.hist, c.cur, c.annW, c.annH, c.usedSetScale, c.usedXvp⟩
 
 /-- size of the screen this client is served from (`cl->scaledScreen`) -/
 def Conn.viewSize (s : Screen) (c : Conn) : Nat × Nat := c.scaled.getD (s.w, s.h)
